@@ -182,6 +182,9 @@ func buildPool(m *vs.Stream, freeze bool) (*pool, error) {
 	// general position (every vertex jittered off the lattice; admitted only
 	// if the whole pool's arrangement passes the clearance check)
 	general := m.Intn(4, "pool/class") == 3
+	// one run in sixteen: every line and ring is long (64-100 vertices), for
+	// code paths that switch strategy at a size threshold
+	longSeqs := m.Intn(16, "pool/longseqs") == 15
 	for attempt := 0; ; attempt++ {
 		p.geoms = p.geoms[:0]
 		for i := 0; i < ng; i++ {
@@ -189,7 +192,10 @@ func buildPool(m *vs.Stream, freeze bool) (*pool, error) {
 			if m.Intn(8, "pool/longer") == 7 {
 				maxPts = 40 // sequences of 64+ floats (size-threshold paths)
 			}
-			cfg := gen.Cfg{MaxPts: maxPts, MaxParts: 3, Depth: 1 + m.Intn(2, "pool/depth"), CTypes: zm, Empties: m.Intn(4, "pool/empties") == 3, SpareCap: true}
+			if longSeqs {
+				maxPts = 100
+			}
+			cfg := gen.Cfg{AlwaysLong: longSeqs, MaxPts: maxPts, MaxParts: 3, Depth: 1 + m.Intn(2, "pool/depth"), CTypes: zm, Empties: m.Intn(4, "pool/empties") == 3, SpareCap: true}
 			if general {
 				cfg.Jitter = 0.3
 			}
